@@ -17,19 +17,28 @@ rule = ("scripts = 'g begin', ops, 'g end', one driver process per script; strea
         "mpt_path_next) for all texts over {a,b,sep} up to length 5 with and without an assign character and with every explicit length, "
         "mpt_path_last after 0..3 consumed elements, path building with mpt_path_addchar/valid/add/del in separator and "
         "binary mode; stream 4: random histories with element and value lengths from {0,1,2,254,255,256,300} and "
-        "repeated elements; non-trivial = a history in which a removal or an overwrite changed the stored pairs while "
+        "repeated elements; stream 5: random histories with binary length mode paths on the global tree and the private "
+        "list; second part (private C++ configuration mpt::config::root through harness/drvxx_config.cpp, one process for "
+        "many scripts): every history of length <=3/<=4 of set/del over the 6 paths with gets of all; the slot re-use region "
+        "(an element with k in 0..5 children on a level of m in 1..4 items, at every position, on the top level and below "
+        "another element, is removed, optionally a sibling too, then a new name / the same name / a sibling / a new name with "
+        "child is assigned on that level; all old and new paths queried before and after); mpt::path::add/next/del; random "
+        "histories over a 6-name pool with depth <=3, clear, and names/values across 255 bytes; non-trivial = a history in which a removal or an overwrite changed the stored pairs while "
         "at least two pairs were stored (seen in the code's output), counted per distinct script")
 assumptions = [
     "path texts and values are C strings (no zero byte); the assign character is 0 for set/get/del as in mpt_config_set/get",
     "the node list operations used by the configuration tree behave as C14 shows (first match, append, unlink+destroy)",
     "malloc never fails in the harness runs",
-    "the C++ wrappers (mpt++/config.cpp) are not driven by this check",
+    "the existence check (query without handler) of a path that holds no value is not constrained by the map: both "
+    "implementations report value-less intermediate elements as present, the C++ one also elements emptied by remove",
 ]
-trusted = ["hand-written model MptModel/Impl/Config.lean tied to mptcore/config/*.c by harness/drv_config.c"]
+trusted = ["hand-written model MptModel/Impl/Config.lean tied to mptcore/config/*.c by harness/drv_config.c",
+           "hand-written model MptModel/Impl/ConfigItems.lean tied to mpt++/config.cpp + mptcore/config/config_item_*.c by "
+           "harness/drvxx_config.cpp (code under test compiled into the driver with UBSan's vptr check off)"]
 
 
 def corpus(chk):
-    return gen.corpus(id)
+    return [(n, sc) for n, sc in gen.corpus(id) if sc and sc[0].startswith("g ")]
 
 
 def hx(s):
@@ -172,10 +181,34 @@ def _stream4(tier, r, scale):
     return out
 
 
+def _stream5(tier, r):
+    """binary length mode paths (built with addchar/valid/add) on the global tree and the private list"""
+    out = []
+    elems = [["a"], ["a", "b"], ["a", "cc", "d"], ["a", "b", "zz"], ["b"], ["a", "cc"], ["ccc", "a"]]
+    fmt = lambda e: ",".join(hx(x) for x in e)
+    n = 150 if tier == "quick" else 1500
+    for k in range(n):
+        lines = ["g begin"]
+        for _ in range(r.choice([2, 3, 5, 8])):
+            e = r.choice(elems)
+            tr = r.choice(["-", "-", "r"])
+            if r.random() < 0.7:
+                lines.append("g bset %s %s %s" % (tr, fmt(e), hx("b%d" % r.randrange(100))))
+            else:
+                lines.append("g bget %s %s" % (tr, fmt(e)))
+        for e in elems:
+            lines.append("g bget - %s" % fmt(e))
+            lines.append("g bget r %s" % fmt(e))
+        lines += _probe() + ["g end"]
+        out.append(("bin:%d" % k, lines))
+    return out
+
+
 def scripts(tier, seed, scale=1):
     r2 = gen.rng(id, tier, seed, "mixed")
     r4 = gen.rng(id, tier, seed, "random")
-    return _stream1(tier) + _stream2(tier, r2) + _stream3(tier) + _stream4(tier, r4, scale)
+    r5 = gen.rng(id, tier, seed, "binary")
+    return _stream1(tier) + _stream2(tier, r2) + _stream3(tier) + _stream4(tier, r4, scale) + _stream5(tier, r5)
 
 
 def nontrivial(script, c_lines):
@@ -183,10 +216,14 @@ def nontrivial(script, c_lines):
     for op, ln in zip(script, c_lines):
         i = ln.find("| C G[")
         if i < 0:
+            i = ln.find("| C X[")
+        if i < 0:
             continue
         j = ln.find("]P[", i)
+        if j < 0:
+            j = ln.find("] | I", i)
         cur = ln[i + 6:j].split(",") if j > i + 6 else []
-        if prev is not None and len(prev) >= 2 and (op.startswith("g del") or op.startswith("g set")):
+        if prev is not None and len(prev) >= 2 and op.split()[1:2] in (["del"], ["set"]):
             gone = [p for p in prev if p not in cur]
             if gone:
                 return True
@@ -208,4 +245,128 @@ def tally(chk, script, c_lines):
 
 def finding_key(script, res):
     op = (res.get("op") or "").split()
-    return "%s:%s" % (res["kind"], op[1] if len(op) > 1 else "?")
+    return "%s:%s%s" % (res["kind"], "x-" if op[:1] == ["x"] else "", op[1] if len(op) > 1 else "?")
+
+
+# --------------------------------------------------------------------------- second part: the private C++ configuration
+class _XX:
+    """mpt::config::root (mpt++/config.cpp on the item arrays of mptcore/config/config_item_*.c) through
+    harness/drvxx_config.cpp; the object is private, so many scripts share one driver process"""
+    id = "C10"
+    area = "config"
+    driver = "drvxx_config"
+    cxx = True
+    fixed_lines = 1
+    link_extra = ("-fno-sanitize=vptr",)
+
+    @staticmethod
+    def corpus(chk):
+        return [(n, sc) for n, sc in gen.corpus(id) if sc and sc[0].startswith("x ")]
+
+    @staticmethod
+    def _probe(paths):
+        return ["x get %s 2e" % hx(p) for p in paths]
+
+    @staticmethod
+    def scripts(tier, seed, scale=1):
+        out = []
+        X = _XX
+        # 1. every history of length <= 3 (quick) / 4 (thorough) of set/del over the 6 paths
+        ops = []
+        for i, p in enumerate(PATHS):
+            ops.append("x set %s 2e %s" % (hx(p), hx("v%d" % i)))
+            ops.append("x del %s 2e" % hx(p))
+        top = 3 if tier == "quick" else 4
+        for n in range(1, top + 1):
+            for h in itertools.product(range(len(ops)), repeat=n):
+                lines = ["x begin"]
+                for j, i in enumerate(h):
+                    op = ops[i]
+                    if op.startswith("x set"):
+                        op = op[:op.rindex(" ")] + " " + hx("w%d%d" % (j, i))
+                    lines.append(op)
+                lines += X._probe(PATHS) + ["x end"]
+                out.append(("xex:%d:%s" % (n, "-".join(map(str, h))), lines))
+        # 2. slot re-use: an element E with k children on a level of m items (incl. E) is removed, then a name is
+        #    assigned on that level (a new one, E again, or an old sibling); k and m independent, level = top or below "p"
+        sib = ["s1", "s2", "s3", "s4"]
+        kids = ["k1", "k2", "k3", "k4", "k5"]
+        for pre in ("", "p."):
+            for m in range(1, 5):
+                for k in range(0, 6):
+                    for epos in range(m):
+                        for again in ("n", "E", "s1", "n.k1"):
+                            for twice in (0, 1):
+                                lines = ["x begin"]
+                                level = sib[:m - 1]
+                                level.insert(epos, "E")
+                                every = []
+                                for nm in level:
+                                    if nm == "E":
+                                        for c in kids[:k]:
+                                            lines.append("x set %s 2e %s" % (hx(pre + "E." + c), hx("v" + c)))
+                                            every.append(pre + "E." + c)
+                                        if k == 0 or (k + m) % 2:
+                                            lines.append("x set %s 2e %s" % (hx(pre + "E"), hx("vE")))
+                                    else:
+                                        lines.append("x set %s 2e %s" % (hx(pre + nm), hx("v" + nm)))
+                                        lines.append("x set %s 2e %s" % (hx(pre + nm + ".k1"), hx("w" + nm)))
+                                        every.append(pre + nm + ".k1")
+                                    every.append(pre + nm)
+                                lines.append("x del %s 2e" % hx(pre + "E"))
+                                if twice:
+                                    # a second removal on the level (first sibling) before anything is assigned
+                                    if m > 1:
+                                        lines.append("x del %s 2e" % hx(pre + level[0 if level[0] != "E" else 1]))
+                                    else:
+                                        continue
+                                lines += X._probe(every)
+                                lines.append("x set %s 2e %s" % (hx(pre + again), hx("new")))
+                                probes = every + [pre + "n"] + [pre + "n." + c for c in kids] + [pre + "E." + c for c in kids]
+                                lines += X._probe(probes)
+                                lines.append("x set %s 2e %s" % (hx(pre + "n2.k2"), hx("new2")))
+                                lines += X._probe(probes + [pre + "n2." + c for c in kids])
+                                lines.append("x end")
+                                out.append(("xslot:%s%d/%d/%d/%s/%d" % (pre, m, k, epos, again, twice), lines))
+        # 3. the C++ path object: rebuilding a path element by element
+        lines = ["x begin"]
+        for n in range(1, 4):
+            for t in itertools.product(["", "a", "bc", "def"], repeat=n):
+                lines.append("x padd 2e %s" % ",".join(hx(e) for e in t))
+        for l1 in (254, 255, 256, 257, 300):
+            lines.append("x padd 2e %s,%s" % (hx("x" * l1), hx("ab")))
+        out.append(("xpath:build", lines + ["x end"]))
+        # 4. random histories over a small name pool (deep re-use), incl. long names and values
+        r = gen.rng(id, tier, seed, "xx-random")
+        names = ["a", "b", "c", "d", "e", ""]
+        lens = [1, 2, 254, 255, 256, 300]
+        for kk in range((300 if tier == "quick" else 4000) * scale):
+            pool = list(names)
+            if r.random() < 0.2:
+                pool += [chr(0x78) * r.choice(lens)]
+            paths = set()
+            lines = ["x begin"]
+            for _ in range(r.choice([6, 12, 25])):
+                depth = r.choice([1, 1, 2, 2, 3])
+                p = ".".join(r.choice(pool) for _ in range(depth))
+                kind = r.choice(["set", "set", "set", "del", "del", "get"])
+                paths.add(p)
+                if kind == "set":
+                    v = r.choice(["v%d" % r.randrange(50), chr(0x77) * r.choice(lens)])
+                    lines.append("x set %s 2e %s" % (hx(p), hx(v)))
+                elif kind == "del":
+                    lines.append("x del %s 2e" % hx(p))
+                else:
+                    lines.append("x get %s 2e" % hx(p))
+                if r.random() < 0.03:
+                    lines.append("x clear")
+            lines += X._probe(sorted(paths)) + ["x end"]
+            out.append(("xrnd:%d" % kk, lines))
+        return out
+
+    nontrivial = staticmethod(lambda script, c_lines: nontrivial(script, c_lines))
+    tally = staticmethod(lambda chk, script, c_lines: tally(chk, script, c_lines))
+    finding_key = staticmethod(lambda script, res: finding_key(script, res))
+
+
+extra_parts = [_XX]
